@@ -47,7 +47,7 @@ theorem runOps_preserves (d : Decls) (I : St → Prop)
         simp only [runOps]
         split
         · exact ih _ _ _ (hemit _ _ (by simp) h)
-        · exact h
+        · exact ih _ _ _ (hemit _ _ (by simp) h)
         · exact ih _ _ _ (hemit _ _ (by simp) h)
         · exact ih _ _ _ (hemit _ _ (by simp) h)
         · rename_i ops hth
@@ -119,7 +119,7 @@ theorem yield_saves_suffix (d : Decls) :
         simp only [runOps] at h
         split at h
         · exact step _ h
-        · simp at h
+        · exact step _ h
         · exact step _ h
         · exact step _ h
         · split at h
